@@ -292,7 +292,7 @@ func handleUIDStore(deps ServerDeps, conn net.Conn, tag string, parts []string, 
 			cleanedFlagsStr := flagSetToString(cleanedFlags)
 
 			// Move to Spam folder
-			err = message.MoveMessageToMailbox(targetDB, messageID, state.SelectedMailboxID, "Spam", state.UserID, cleanedFlagsStr, internalDate)
+			err = message.MoveMessageToMailbox(targetDB, messageID, state.SelectedMailboxID, int64(uid), "Spam", state.UserID, cleanedFlagsStr, internalDate)
 			if err != nil {
 				if !errors.Is(err, message.ErrAlreadyInMailbox) {
 					log.Printf("Failed to move message %d to Spam: %v", messageID, err)
@@ -312,7 +312,7 @@ func handleUIDStore(deps ServerDeps, conn net.Conn, tag string, parts []string, 
 			cleanedFlagsStr := flagSetToString(cleanedFlags)
 
 			// Move to INBOX
-			err = message.MoveMessageToMailbox(targetDB, messageID, state.SelectedMailboxID, "INBOX", state.UserID, cleanedFlagsStr, internalDate)
+			err = message.MoveMessageToMailbox(targetDB, messageID, state.SelectedMailboxID, int64(uid), "INBOX", state.UserID, cleanedFlagsStr, internalDate)
 			if err != nil {
 				if !errors.Is(err, message.ErrAlreadyInMailbox) {
 					log.Printf("Failed to move message %d to INBOX: %v", messageID, err)
